@@ -999,22 +999,40 @@ pub fn generate(rng: &mut Rng, prop: Prop, thorough: bool) -> (HistScenario, Str
                     _ => Vec::new(),
                 };
                 // sometimes a big file: a comment pads it so that a multi-byte character straddles
-                // offset 8192 (or 65536), the usual sizes of I/O buffers
-                let tail: Vec<u8> = if tail.is_empty() && rng.pct(8) {
-                    // 8 KiB, 64 KiB, 1 MiB, 16 MiB: I/O buffers, size caps
+                // a power of two (512 .. 65536: sniffing heads, pages, the usual sizes of I/O buffers)
+                // or a size cap
+                let tail: Vec<u8> = if tail.is_empty() && rng.pct(10) {
                     let target = match rng.below(100) {
-                        0..=59 => 8192usize,
+                        0..=29 => 8192usize,
+                        30..=44 => 4096,
+                        45..=59 => 1usize << rng.range(9, 15),
                         60..=79 => 65536,
                         80..=87 => 1 << 20,
                         88..=91 => 1_000_000,
                         92..=93 => 10_000_000,
                         _ => 1 << 24,
                     };
+                    let dense = rng.pct(50);
+                    let extra = rng.range(0, 40);
                     let len = c.text().len();
-                    if len + 8 < target {
+                    if len + 8 < target && !dense {
                         let mut t = b"\n// ".to_vec();
                         t.resize(target - len - 1, b'x');
                         t.extend_from_slice("\u{e9}\u{20ac} end\n".as_bytes());
+                        t
+                    } else if len + 8 < target {
+                        // the same size, but the whole neighbourhood of the boundary (and of every
+                        // smaller power of two inside the last 128 KiB) is 2-, 3- and 4-byte
+                        // characters: whatever a reader does at the boundary, it does it inside a
+                        // character; the document's own length decides the phase
+                        let mut t = b"\n// ".to_vec();
+                        let ascii_until = (target - len).saturating_sub(128 * 1024).max(t.len());
+                        t.resize(ascii_until, b'x');
+                        let cycle = "\u{e9}\u{20ac}\u{1f600}".as_bytes();
+                        while len + t.len() < target + extra {
+                            t.extend_from_slice(cycle);
+                        }
+                        t.extend_from_slice(b" end\n");
                         t
                     } else {
                         tail
